@@ -52,6 +52,22 @@ type parser struct {
 // syntax errors become Diags of ClassSyntax and parsing continues with the
 // next module / file.
 func ParseDesign(files map[string]string) (*Design, []Diag) {
+	return ParseDesignOpts(files, ParseOpts{})
+}
+
+// ParseOpts tunes ParseDesignOpts.
+type ParseOpts struct {
+	// HonorTranslateOff makes the parser skip "// synthesis translate_off" ...
+	// "// synthesis translate_on" regions like a synthesis tool does (a
+	// ClassUnsupported diag records every skipped region). A simulator does
+	// not skip them, so the default is false.
+	HonorTranslateOff bool
+	// Defines are predefined macros (`ifdef / `NAME).
+	Defines map[string]string
+}
+
+// ParseDesignOpts is ParseDesign with options.
+func ParseDesignOpts(files map[string]string, o ParseOpts) (*Design, []Diag) {
 	d := &Design{mods: map[string]*Module{}, broken: map[string]bool{}}
 	var diags []Diag
 	names := make([]string, 0, len(files))
@@ -60,18 +76,25 @@ func ParseDesign(files map[string]string) (*Design, []Diag) {
 	}
 	sort.Strings(names)
 	for _, fn := range names {
-		diags = append(diags, parseFile(d, fn, files[fn])...)
+		diags = append(diags, parseFile(d, fn, files[fn], o)...)
 	}
 	return d, diags
 }
 
-func parseFile(d *Design, fn, src string) (diags []Diag) {
+func parseFile(d *Design, fn, src string, o ParseOpts) (diags []Diag) {
 	defer func() {
 		if r := recover(); r != nil {
 			diags = append(diags, Diag{Class: ClassUnsupported, File: fn, Line: 0, Msg: fmt.Sprintf("internal parser panic: %v", r)})
 		}
 	}()
-	lx := lexAll(src, nil)
+	var defs map[string]string
+	if o.Defines != nil {
+		defs = map[string]string{}
+		for k, v := range o.Defines {
+			defs[k] = v
+		}
+	}
+	lx := lexAll(src, defs, o.HonorTranslateOff)
 	for _, e := range lx.errs {
 		diags = append(diags, Diag{Class: ClassSyntax, File: fn, Line: e.line, Msg: e.msg})
 	}
